@@ -63,6 +63,10 @@ L2 = [0, 8]
 ALL = ["balanced", "fast", "random"]
 RADII4 = [("0", 0), ("1/2", 1), ("1", 4), ("sqrt2", 8), ("8", 256), ("inf", None)]   # label, 4*r^2
 PATH_CAP = 60000
+LEVEL_TEXT = ("Bounded model checking of the real KDTree: the input family and every answer of the random-pivot seam are "
+              "enumerated exhaustively inside the stated bounds; termination is decided on the explored transition "
+              "relation of pending leaves (repeated state = cycle), queries by an exact brute-force oracle. Nothing is "
+              "sampled; numpy's and Python's global RNG states are verified untouched by every task.")
 
 
 def _fam(name, d, lat, nmin, nmax, q="full", strategies=ALL, orders=("sorted",), dtype="float", batch=8,
@@ -75,17 +79,19 @@ BF = ["balanced", "fast"]
 
 
 def _families(tier):
-    """Heavy families first (the pool hands out tasks in order, so the tail stays light)."""
+    """The small 1-D family first (so that the first counterexample of a fingerprint is a minimal one), then the heavy
+    families, light ones last (the pool hands out tasks in order, so the tail stays light)."""
     if tier == "quick":
         return [
+            _fam("1d-L5", 1, L5, 0, 5, batch=12),
             _fam("3d-L2", 3, L2, 3, 3, strategies=BF, batch=6, qalpha=[-2, 0, 8, 16]),
             _fam("3d-L2", 3, L2, 0, 2, batch=6, qalpha=[-2, 0, 8, 16]),
             _fam("2d-L3", 2, L3, 0, 3, batch=6),
             _fam("2d-L5-build", 2, L5, 0, 3, q="none", batch=150),
-            _fam("1d-L5", 1, L5, 0, 5, batch=12),
         ]
     both = ("sorted", "reversed")
     return [
+        _fam("1d-L5", 1, L5, 0, 6, orders=both, batch=6),
         _fam("2d-L3", 2, L3, 5, 5, strategies=BF, qalpha=[0, 1, 2, 9, 16], batch=6),
         _fam("2d-L3", 2, L3, 4, 4, batch=4),
         _fam("2d-L4", 2, L4, 3, 3, strategies=BF, batch=6),
@@ -96,7 +102,6 @@ def _families(tier):
         _fam("3d-L2", 3, L2, 0, 3, batch=3),
         _fam("2d-L5", 2, L5, 0, 2, batch=4),
         _fam("2d-L3", 2, L3, 0, 3, orders=both, batch=4),
-        _fam("1d-L5", 1, L5, 0, 6, orders=both, batch=6),
         _fam("2d-L3-int", 2, L3, 1, 3, dtype="int", batch=6),
         _fam("2d-L4", 2, L4, 0, 2, batch=4),
         _fam("3d-L3-build", 3, L3, 0, 3, q="none", batch=150),
@@ -116,8 +121,10 @@ def n_multisets(m, n):
 
 
 def tasks(tier):
-    out = _fast51(tier)
-    for f in _families(tier):
+    out = []
+    for i, f in enumerate(_families(tier)):
+        if i == 1:
+            out += _fast51(tier)
         m = len(f["lat"]) ** f["d"]
         for n in range(f["nmin"], f["nmax"] + 1):
             total = n_multisets(m, n)
@@ -342,7 +349,7 @@ def _explore(arr, leaf, strat, symdev=True):
                 am = old[3] if am is None else am
             outs[piv] = (l, al, m, am)
         if status == "ok":
-            res["trees"].append((val, path))
+            res["trees"].append((val, (list(path), [t[2] for t in ctl.trans])))
         elif status == "raises":
             res["raises"].append((val, path))
         elif status == "cap":
@@ -445,60 +452,70 @@ def _check_partition(rep, tree, n, icls, detail):
         miss = sorted(set(range(n)) - set(got))
         dup = sorted({i for i in got if got.count(i) > 1})
         kind = "mismatch:point_lost" if miss else ("mismatch:point_in_two_leaves" if dup else "mismatch:foreign_index")
-        _viol(rep, "C11.build.partition", "KDTree.__init__", kind, icls,
+        _viol(rep, "C11.build.partition", "KDTree.__init__", kind, "any_point_set",
                       dict(detail, leaf_contents=[[int(i) for i in lf.points] for lf in leaves]))
 
 
-def _check_queries(rep, tree, pts2, d, qpoints2, tree_label, tdetail):
-    """kNN and radius queries of one tree against brute force on exact integers (everything doubled)."""
+def _check_queries(rep, tree, pts2, qpoints2, tdetail, ks=None):
+    """kNN and radius queries of one tree against brute force on exact integers (all coordinates doubled, so
+    d4 = 4 * squared distance is an integer).  Statement clauses, one subcheck each:
+      C11.knn.answers      query answers instead of raising
+      C11.knn.indices      what comes back are distinct indices of input points
+      C11.knn.count        exactly min(k, n) of them
+      C11.knn.k_smallest   their distances are the k smallest distances (as a multiset: ties may pick either point)
+      C11.knn.order        listed in non-decreasing distance
+      C11.radius.answers / C11.radius.exact_ball   exactly the points with distance <= r, each once, any order"""
     import numpy as np
     from mouette.geometry import Vec
     n = len(pts2)
     for q2 in qpoints2:
-        qv = Vec(np.array([c / 2 for c in q2], dtype=float))
-        d4 = [sum((a - b) ** 2 for a, b in zip(p, q2)) for p in pts2]      # 4 * squared distance, exact
+        q = [c / 2 for c in q2]
+        qv = Vec(np.array(q, dtype=float))
+        d4 = [sum((a - b) ** 2 for a, b in zip(p, q2)) for p in pts2]
         sd4 = sorted(d4)
-        for k in range(1, n + 2):
+        if len(set(sd4)) < len(sd4):
+            rep.flag("knn:tied_distances")
+        for k in (ks or range(1, n + 2)):
             try:
                 res = tree.query(qv, k)
             except Exception as e:
-                _viol(rep, "C11.knn.answers", "KDTree.query", "raises:" + type(e).__name__, _kcls(k, n),
-                              dict(tdetail, query=[c / 2 for c in q2], k=k, msg=str(e)[:200]))
+                _viol(rep, "C11.knn.answers", "KDTree.query", "raises:" + type(e).__name__, KCLS,
+                      dict(tdetail, query=q, k=k, msg=str(e)[:200]))
                 rep.outcome("knn", "raises")
                 continue
             rep.transitions += 1
             rep.evaluations += 1
             want = sd4[:k]
-            bad = None
             try:
                 idx = [int(i) for i in res]
             except Exception:
                 idx = None
-            if idx is None or any(not (0 <= i < n) for i in idx):
+            bad = got = None
+            if idx is not None and all(0 <= i < n for i in idx):
+                got = [d4[i] for i in idx]
+            if got is None:
                 bad = ("C11.knn.indices", "mismatch:not_an_index")
             elif len(idx) != len(want):
                 bad = ("C11.knn.count", "mismatch:count")
             elif len(set(idx)) != len(idx):
                 bad = ("C11.knn.indices", "mismatch:repeated_index")
-            else:
-                got = [d4[i] for i in idx]
-                if sorted(got) != want:
-                    bad = ("C11.knn.k_smallest", "mismatch:distances")
-                elif got != want:
-                    bad = ("C11.knn.order", "mismatch:not_non_decreasing")
-            rep.outcome("knn", f"len={len(res) if hasattr(res, '__len__') else '?'}")
+            elif sorted(got) != want:
+                bad = ("C11.knn.k_smallest", "mismatch:distances")
+            elif got != want:
+                bad = ("C11.knn.order", "mismatch:not_non_decreasing")
+            rep.outcome("knn", "len=%s" % (len(idx) if idx is not None else "?"))
             if bad:
-                _viol(rep, bad[0], "KDTree.query", bad[1], _kcls(k, n),
-                              dict(tdetail, query=[c / 2 for c in q2], k=k, got=[int(i) for i in res] if idx is not None else repr(res),
-                                   want_sq_distances=[w / 4 for w in want],
-                                   got_sq_distances=[d4[i] / 4 for i in idx] if idx and all(0 <= i < n for i in idx) else None))
+                _viol(rep, bad[0], "KDTree.query", bad[1], KCLS,
+                      dict(tdetail, query=q, k=k, got=idx if idx is not None else repr(res),
+                           got_sq_distances=[g / 4 for g in got] if got is not None else None,
+                           want_sq_distances=[w / 4 for w in want]))
         for label, r4 in RADII4:
             r = math.inf if r4 is None else math.sqrt(r4 / 4)
             try:
                 res = tree.query_radius(qv, r)
             except Exception as e:
                 _viol(rep, "C11.radius.answers", "KDTree.query_radius", "raises:" + type(e).__name__, "r=" + label,
-                              dict(tdetail, query=[c / 2 for c in q2], r=label, msg=str(e)[:200]))
+                      dict(tdetail, query=q, r=label, msg=str(e)[:200]))
                 rep.outcome("radius", "raises")
                 continue
             rep.transitions += 1
@@ -508,7 +525,9 @@ def _check_queries(rep, tree, pts2, d, qpoints2, tree_label, tdetail):
                 got = sorted(int(i) for i in res)
             except Exception:
                 got = None
-            rep.outcome("radius", f"len={len(res) if hasattr(res, '__len__') else '?'}")
+            rep.outcome("radius", "len=%s" % (len(got) if got is not None else "?"))
+            if want and len(want) < n:
+                rep.flag("radius:proper_subset")
             if got != want:
                 if got is None:
                     kind = "mismatch:not_an_index"
@@ -518,16 +537,14 @@ def _check_queries(rep, tree, pts2, d, qpoints2, tree_label, tdetail):
                     kind = "mismatch:point_outside_ball_returned"
                 else:
                     kind = "mismatch:repeated_index"
-                on_sphere = any(r4 is not None and d4[i] == r4 for i in range(n))
+                on_sphere = r4 is not None and r4 in d4
                 _viol(rep, "C11.radius.exact_ball", "KDTree.query_radius", kind,
-                              "point_on_sphere" if on_sphere else "no_point_on_sphere",
-                              dict(tdetail, query=[c / 2 for c in q2], r=label, got=got, want=want))
-            if want and len(want) < n:
-                rep.flag("radius:proper_subset")
-        if len(set(sd4)) < len(sd4):
-            rep.flag("knn:tied_distances")
+                      "point_on_sphere" if on_sphere else "no_point_on_sphere",
+                      dict(tdetail, query=q, r=label, got=got if got is not None else repr(res), want=want))
 
 
+# kNN findings are classified by subcheck and kind only: one pruning defect shows alike for k<n, k==n and k>n
+KCLS = "k=1..n+1"
 VIOL_KEEP = 2
 
 
@@ -540,11 +557,6 @@ def _viol(rep, subcheck, callee, kind, icls, detail):
         rep.violation(subcheck, callee, kind, icls, detail)
 
 
-def _kcls(k, n):
-    """kNN findings are classified by subcheck and kind only: the same pruning defect shows for k<n, k==n, k>n."""
-    return "k=1..n+1"
-
-
 def _run_pointset(rep, pts, d, task, qpoints2):
     """All builds of one point array (one row order), then the queries on its distinct trees."""
     import numpy as np
@@ -554,7 +566,6 @@ def _run_pointset(rep, pts, d, task, qpoints2):
     pts2 = [tuple(2 * c for c in p) for p in pts]
     mult = _max_multiplicity(pts)
     trees = {}
-    rep.traces += 1
     for leaf in task["leafs"]:
         dupcls = "identical_points>leaf_size" if mult > leaf else "identical_points<=leaf_size"
         if mult > leaf:
@@ -591,13 +602,13 @@ def _run_pointset(rep, pts, d, task, qpoints2):
                 _viol(rep, "C11.build.terminates", "KDTree.__init__", "hang", icls + ";cap",
                               dict(base, why=val, pivot_script=list(path)))
             for val, path in ex["raises"][:1]:
-                _viol(rep, "C11.build.finishes", "KDTree.__init__", "raises:" + val[0], icls,
+                _viol(rep, "C11.build.finishes", "KDTree.__init__", "raises:" + val[0], _pivot_class(strat),
                               dict(base, msg=val[1], pivot_script=list(path)))
             # ---- distinct trees
             for tree, path in ex["trees"]:
                 k = _tree_key(tree)
                 if k not in trees:
-                    trees[k] = (tree, dict(base, pivot_script=list(path)), icls)
+                    trees[k] = (tree, dict(base, seam_answer_indices=path[0], split_values_in_call_order=path[1]), icls)
     # ---- clause: leaves partition the input; queries exact
     for k in sorted(trees, key=repr):
         tree, tdetail, icls = trees[k]
@@ -613,7 +624,7 @@ def _run_pointset(rep, pts, d, task, qpoints2):
         if any(lf.points.size > 1 for lf in leaves) and ninternal:
             rep.flag("tree:multi_point_leaf")
         if qpoints2 is not None:
-            _check_queries(rep, tree, pts2, d, qpoints2, None, tdetail)
+            _check_queries(rep, tree, pts2, qpoints2, tdetail)
     rep.count("distinct_trees", len(trees))
     return len(trees)
 
@@ -693,7 +704,7 @@ def _run_fast51(task, rep):
     for tree, path in ex["trees"]:
         k = _tree_key(tree)
         if k not in trees:
-            trees[k] = (tree, dict(base, pivot_script=list(path)))
+            trees[k] = (tree, dict(base, seam_answer_indices=path[0], split_values_in_call_order=path[1]))
     rep.count("distinct_trees", len(trees))
     rep.count("distinct_trees:fast51", len(trees))
     # queries: every 4th input point, its half-step neighbour, two outside points; k in {1,2,3,10,50,51,52}
@@ -706,62 +717,7 @@ def _run_fast51(task, rep):
         tree, tdetail = trees[k]
         _check_partition(rep, tree, n, icls, tdetail)
         rep.case((task["which"], k))
-        _check_queries51(rep, tree, pts2, qs, tdetail)
-
-
-def _check_queries51(rep, tree, pts2, qs, tdetail):
-    """Same oracle as _check_queries with a thinner k list (the tree is large)."""
-    import numpy as np
-    from mouette.geometry import Vec
-    n = len(pts2)
-    for q2 in qs:
-        qv = Vec(np.array([c / 2 for c in q2], dtype=float))
-        d4 = [sum((a - b) ** 2 for a, b in zip(p, q2)) for p in pts2]
-        sd4 = sorted(d4)
-        for k in (1, 2, 3, 10, 50, 51, 52):
-            try:
-                res = tree.query(qv, k)
-            except Exception as e:
-                _viol(rep, "C11.knn.answers", "KDTree.query", "raises:" + type(e).__name__, _kcls(k, n),
-                              dict(tdetail, query=[c / 2 for c in q2], k=k, msg=str(e)[:200]))
-                continue
-            rep.transitions += 1
-            rep.evaluations += 1
-            idx = [int(i) for i in res]
-            want = sd4[:k]
-            bad = None
-            if any(not (0 <= i < n) for i in idx):
-                bad = ("C11.knn.indices", "mismatch:not_an_index")
-            elif len(idx) != len(want):
-                bad = ("C11.knn.count", "mismatch:count")
-            elif len(set(idx)) != len(idx):
-                bad = ("C11.knn.indices", "mismatch:repeated_index")
-            elif sorted(d4[i] for i in idx) != want:
-                bad = ("C11.knn.k_smallest", "mismatch:distances")
-            elif [d4[i] for i in idx] != want:
-                bad = ("C11.knn.order", "mismatch:not_non_decreasing")
-            if bad:
-                _viol(rep, bad[0], "KDTree.query", bad[1], _kcls(k, n),
-                              dict(tdetail, query=[c / 2 for c in q2], k=k, got=idx, want_sq_distances=[w / 4 for w in want]))
-        for label, r4 in RADII4:
-            r = math.inf if r4 is None else math.sqrt(r4 / 4)
-            try:
-                res = tree.query_radius(qv, r)
-            except Exception as e:
-                _viol(rep, "C11.radius.answers", "KDTree.query_radius", "raises:" + type(e).__name__, "r=" + label,
-                              dict(tdetail, query=[c / 2 for c in q2], r=label, msg=str(e)[:200]))
-                continue
-            rep.transitions += 1
-            rep.evaluations += 1
-            want = [i for i in range(n) if r4 is None or d4[i] <= r4]
-            got = sorted(int(i) for i in res)
-            if got != want:
-                kind = ("mismatch:point_in_ball_missing" if set(want) - set(got) else
-                        "mismatch:point_outside_ball_returned" if set(got) - set(want) else "mismatch:repeated_index")
-                on_sphere = any(r4 is not None and x == r4 for x in d4)
-                _viol(rep, "C11.radius.exact_ball", "KDTree.query_radius", kind,
-                              "point_on_sphere" if on_sphere else "no_point_on_sphere",
-                              dict(tdetail, query=[c / 2 for c in q2], r=label, got=got, want=want))
+        _check_queries(rep, tree, pts2, qs, tdetail, ks=(1, 2, 3, 10, 50, 51, 52))
 
 
 # ------------------------------------------------------------------------------------------------
